@@ -29,7 +29,7 @@ SHARD_WATCHDOG = {"quick": 1500, "thorough": 10800}
 
 
 def gen_cases(tier, seed):
-    n = 48 if tier == "quick" else 900
+    n = 96 if tier == "quick" else 20000
     return [{"i": i, "seed": seed} for i in range(n)] + [{"i": -1, "seed": seed, "fixture": True}]
 
 
